@@ -67,13 +67,14 @@ Qed.
 
 Theorem qc_sound_p c x st q :
   verify_qc_p c x st q = Ok tt ->
-  (qc_hash q = c_genesis c /\ qc_view q = 0%N) \/
+  (qc_hash q = c_genesis c /\ qc_view q = 0%N /\ qc_sig q = None) \/
   exists s b, qc_sig q = Some s /\ st (qc_hash q) = Some b /\ bi_view b = qc_view q /\
               quorum_signed_p c x s (MBlock (bi_hash b)).
 Proof.
   unfold verify_qc_p. destruct (N.eqb (qc_hash q) (c_genesis c)) eqn:Hg.
-  - destruct (N.eqb (qc_view q) 0) eqn:Hv; [|discriminate]. intros _. left.
-    apply N.eqb_eq in Hg, Hv. now split.
+  - destruct (N.eqb (qc_view q) 0) eqn:Hv; [|discriminate].
+    destruct (qc_sig q); [discriminate|]. intros _. left.
+    apply N.eqb_eq in Hg, Hv. repeat split; assumption.
   - destruct (qc_sig q) as [s|]; [|discriminate].
     destruct (part_len s <? qsize c)%nat eqn:Hlen; [discriminate|].
     destruct (st (qc_hash q)) as [b|]; [|discriminate].
